@@ -87,7 +87,21 @@ void harness(void)
     for (unsigned i = 0; i < NREG; ++i)
         vp_entries[i].flags = in.touched[i] ? REG_EF_TOUCHED : 0;
 
-#if defined(OP_SANITISE)
+#if defined(OP_SANITISEANY)
+    /* Obligation of the induction itself: C01/C03/C05 assume a table whose
+     * flag word is INITIALISED [| BIG_ENDIAN]; every operation - also a
+     * sanitise run that aborts (unacceptable default, unwritable area) - must
+     * hand the table back in that state. No assumption on defaults,
+     * constraint kinds or write access here; nothing else is asserted. */
+    const uint16_t tflags = vp_t.flags;
+    RegisterAccess ra = register_sanitise(&vp_t);
+    VP_ASSERT(vp_t.flags == tflags, "C05.sanitise.table-flags-preserved-also-when-aborted");
+#if GR_N >= 1
+    VP_WITNESS(ra.code != REG_ACCESS_SUCCESS, "C05.sanitiseany.aborted.reach");
+#endif
+    VP_WITNESS(ra.code == REG_ACCESS_SUCCESS, "C05.sanitiseany.completed.reach");
+    return;
+#elif defined(OP_SANITISE)
     /* sanitise part of the property: tables whose registers use
      * no/min/max/range/callback constraints; arbitrary corruption (no Inv).
      * Defaults are acceptable to their registers and every area can be
@@ -114,8 +128,10 @@ void harness(void)
             was_ok[j] = ref_float_ok(was[j], d->e[j].type) && ref_constraint(d, &d->e[j], was[j], false);
         }
     }
+    const uint16_t tflags = vp_t.flags;
     RegisterAccess r = register_sanitise(&vp_t);
     VP_ASSERT(r.code == REG_ACCESS_SUCCESS, "C05.sanitise.succeeds");
+    VP_ASSERT(vp_t.flags == tflags, "C05.sanitise.table-flags-preserved");
     bool any_reset = false;
     for (unsigned j = 0; j < NREG; ++j) {
         if (j >= d->nentries)
@@ -159,6 +175,7 @@ void harness(void)
     VP_ASSUME(inv_holds(d));
     struct vp_snapshot before;
     vp_snap(&before);
+    const uint16_t tflags = vp_t.flags;
     RegisterAccess r;
     bool typed_op = true;
 #if defined(OP_SET)
@@ -226,6 +243,7 @@ void harness(void)
 #endif
     (void)typed_op;
     VP_ASSERT(inv_holds(d), "C05.step.invariant-preserved");
+    VP_ASSERT(vp_t.flags == tflags, "C05.step.table-flags-preserved");
     if (r.code != REG_ACCESS_SUCCESS) {
         VP_ASSERT(vp_mem_equal(&before), "C05.step.refused-leaves-storage-unchanged");
     }
